@@ -368,6 +368,7 @@ func installSpecials(in *Interp, p *Pkg) {
 				if e.Fuel || e.Unsure || e.Panic {
 					return nil, e
 				}
+				e.Swallowed++
 				return Nil(), nil
 			}
 			r = x
